@@ -301,9 +301,12 @@ def make_shims(S):
             self.owner = None
 
         def acquire(self, blocking=True, timeout=-1):
-            S.point("lock.acquire", pred=lambda: self.owner is None)
-            self.owner = S.me()
-            return True
+            while True:
+                S.point("lock.acquire", pred=lambda: self.owner is None)
+                # the point precedes the operation: someone else may have taken the lock before we resumed
+                if self.owner is None:
+                    self.owner = S.me() or True
+                    return True
 
         def release(self):
             self.owner = None
